@@ -277,7 +277,9 @@ class Fock(BaseState):
             )
         if isinstance(self.index, tuple) or isinstance(self.index, list):
             assert isinstance(self.composite_envelope, CompositeEnvelope)
-            return self.composite_envelope.measure(self)
+            return self.composite_envelope.measure(
+                self, separate_measurement=separate_measurement, destructive=destructive
+            )
 
         if self.index is not None:
             assert self.envelope is not None, "Envelope should not be None"
